@@ -1,19 +1,19 @@
 package schist
 
-type zcnShadow struct{}
-type multisigShadow struct{}
 
-func newZcnShadow() *zcnShadow           { return &zcnShadow{} }
-func newMultisigShadow() *multisigShadow { return &multisigShadow{} }
 
-func zcnOps() []OpDef      { return nil }
-func multisigOps() []OpDef { return nil }
 func govOps() []OpDef      { return nil }
 
 func ledgerMonitors() []Monitor {
 	return []Monitor{
 		{"C16", "vesting", monC16},
 		{"C17", "faucet", monC17},
+		{"C18", "mint", monC18},
+		{"C19", "burn", monC19},
+		{"C09", "liabilities", monC09},
+		{"C11", "stake", monC11},
+		{"C21", "multisig", monC21},
+		{"C07", "cache", monC07},
 	}
 }
 
